@@ -66,7 +66,7 @@ def mod_of(root: str, rel: str) -> str:
     return root + ("." + rel.replace("/", ".") if rel and rel != "." else "")
 
 
-def random_layout(rnd: random.Random, root="proj", depth=4, n_dirs=(2, 6), n_files=(4, 10), names=NAMES, init_p=0.7):
+def random_layout(rnd: random.Random, root="proj", depth=4, n_dirs=(2, 6), n_files=(4, 10), names=NAMES, init_p=0.7, root_named_dir=False):
     """-> (dirs, pyfiles) relative paths.  Names in one directory are unique across files and
     sub-directories (no x.py beside x/)."""
     dirs = [""]
@@ -77,7 +77,9 @@ def random_layout(rnd: random.Random, root="proj", depth=4, n_dirs=(2, 6), n_fil
         if parent.count("/") + (1 if parent else 0) >= depth:
             continue
         n = rnd.choice(names)
-        if n in used[parent] or n == root:
+        if root_named_dir and len(dirs) == 1:
+            n = root  # layouts like shop/shop: a package named like the root directory
+        if n in used[parent] or (n == root and not root_named_dir):
             continue
         used[parent].add(n)
         d = f"{parent}/{n}" if parent else n
@@ -147,9 +149,10 @@ def random_project(
     names=NAMES,
     extras=True,
     dangling=0.0,
+    root_named_dir=False,
 ):
     """Random project with internal imports between its own modules."""
-    dirs, files = random_layout(rnd, root, depth, names=names)
+    dirs, files = random_layout(rnd, root, depth, names=names, root_named_dir=root_named_dir)
     mods_files = [mod_of(root, f) for f in files]
     mods_dirs = [mod_of(root, d) for d in dirs if d]
     targets = [m for m in mods_files + mods_dirs if all(part.isidentifier() for part in m.split('.'))]
